@@ -83,6 +83,26 @@ def cmd_setup(a):
     sys.exit(0)
 
 
+def cmd_stage(a):
+    """development aid (not a registered check): run the cluster stage for one profile and a set of predicate
+    prefixes, e.g.  ./verif stage C09_ quota 400 ; evidence is NOT written (scratch context)."""
+    import st_cluster
+    os.environ.setdefault("VERIF_OUT", "/tmp/verif-stage-out")
+    seed = int(os.environ.get("VERIF_SEED", "1") or "1")
+    ctx = vlib.Ctx("DEV", "quick", seed, "exploration")
+    try:
+        st_cluster.run_stage(ctx, a.prefixes.split(","), [(a.profile, a.n)])
+        for sig, text, path in ctx.violations:
+            print("DEV-VIOLATION", sig)
+            print(text[:3000])
+        for k in ctx.known:
+            print("DEV-KNOWN", k)
+    finally:
+        import shutil
+        shutil.rmtree(ctx.scratch, ignore_errors=True)
+    sys.exit(1 if ctx.violations else 0)
+
+
 def main():
     ap = argparse.ArgumentParser()
     sp = ap.add_subparsers(dest="cmd", required=True)
@@ -95,6 +115,11 @@ def main():
     r.set_defaults(fn=cmd_replay)
     s = sp.add_parser("setup")
     s.set_defaults(fn=cmd_setup)
+    g = sp.add_parser("stage")
+    g.add_argument("prefixes")
+    g.add_argument("profile")
+    g.add_argument("n", type=int)
+    g.set_defaults(fn=cmd_stage)
     a = ap.parse_args()
     a.fn(a)
 
